@@ -66,7 +66,9 @@ Outcomes(f) ==
   ELSE IF Abs(f.b.h - f.a.h) <= 2 * f.n /\ f.genKnown
        THEN \* fast sync
             IF f.common < f.fin THEN {"own+ban"}
-            ELSE IF f.a.h - f.common > 2 * f.n \/ f.b.h - f.common > 2 * f.n THEN {"own"}
+            \* fork point more than two rounds back: refused; the common-block query over the last 2n-1 heights fails
+            \* first, and that failure bans the peer (LIP-0014 fast chain switching does the same)
+            ELSE IF f.a.h - f.common > 2 * f.n \/ f.b.h - f.common > 2 * f.n THEN {"own", "own+ban"}
             ELSE IF f.behaviour = "honest" THEN {"peer"}
             ELSE IF f.behaviour = "corrupt" THEN {"own+ban"}      \* downloaded blocks prove invalid: originals restored, peer banned
             ELSE {"own", "own+ban"}                                \* peer fails to serve the segment
